@@ -10,17 +10,22 @@ Next to every built expression the harness keeps its own raw AST and the vector 
 AST on the full box [-4,4]^3 (729 points; floor division / modulo with Python semantics for positive
 divisors, ceildiv(a,b) = -((-a)//b)).  Oracles:
  (1) build     : AffineExpr.eval of the built (eagerly simplified) expression == reference of the raw tree;
- (2) simplify  : the same after AffineExpr.simplify(nd, ns);
+ (2) simplify  : the same after AffineExpr.simplify(nd, ns) for (nd, ns) in {(2,1), (3,2)};
      compose   : AffineExpr.compose / replace_dims_and_symbols / AffineMap.compose /
                  AffineMap.replace_dims_and_symbols with replacement expressions from a small fixed set of
-                 the same tree language == reference composition; inverse_permutation() is a left inverse;
+                 the same tree language == reference composition; AffineMap.eval of composed maps;
+                 inverse_permutation() composed with its map is the identity;
  (3) print-parse: AffineMapAttr -> text -> Parser.parse_attribute (AffineParser) -> eval == reference.
 
-States are the distinct built expressions (structural equality of the library objects); a level-k state is
-expanded only once.  Values of a library expression are obtained with the library's own AffineExpr.eval at
-every point of the box projected on the variables that occur in it (a point that differs only in a variable
-that does not occur in the expression cannot be distinguished by eval) and compared with the reference at
-all 729 points.
+Levels: 0 = leaves, 1 and 2 = every in-domain operator applied to states of the lower levels (complete; the
+parent registers the distinct built expressions, the first tree that reaches an expression owns the state),
+3 and 4 = restricted operator sets on top of every / selected level-2 states (see ctx.bounds), de-duplicated
+inside a shard and counted globally through string hashes.  A transition whose value is wrong is reported
+once (innermost) and the state it would own is never used as an operand.
+
+Values of a library expression are obtained with the library's own AffineExpr.eval at every point of the box
+projected on the variables that occur in it (a point that differs only in a variable that does not occur in
+the expression cannot be distinguished by eval) and compared with the reference at all 729 points.
 """
 from __future__ import annotations
 
@@ -409,12 +414,18 @@ def check_print_parse(st: Stats, batch) -> None:
 class State:
     """A distinct built library expression together with the raw tree (k, a, b) that first reached it.
     a / b are States, python ints (int operand form) or None."""
-    __slots__ = ("k", "a", "b", "expr", "depth", "vec", "const", "bad")
+    __slots__ = ("k", "a", "b", "expr", "depth", "vec", "const", "bad", "vars")
 
     def __init__(self, k, a, b, expr, depth):
         self.k, self.a, self.b, self.expr, self.depth = k, a, b, expr, depth
         self.vec = None
         self.bad = False
+        if k in ("d", "s"):
+            self.vars = VARBIT[(k, a)]             # variables of the raw tree (mask d0=1, d1=2, s0=4)
+        elif k == "c":
+            self.vars = 0
+        else:
+            self.vars = (a.vars if isinstance(a, State) else 0) | (b.vars if isinstance(b, State) else 0)
         if k in ("d", "s"):
             self.const = None
         elif k == "c":
@@ -507,6 +518,9 @@ def transitions(a: State, unary, rights, lefts):
 _G: dict = {"levels": [], "index": {}, "cfg": {}}
 
 
+_NVARS = [bin(m).count("1") for m in range(8)]
+
+
 def _good(xs):
     return [s for s in xs if not s.bad]
 
@@ -521,14 +535,18 @@ def level_cfg(depth: int, a: State, cfg):
             return UNARY_ALL, _good(L[0]) + _good(L[1]), ()
         return (), _good(L[1]), ()                 # leaf (op) level-1 state; unary forms on leaves are level 1
     if depth == 3:
-        raw = raw_of(a)
-        small = _small(raw)
-        sel = cfg["l3_prims"] == "all" or (small and (cfg["l3_prims"] == "small" or bin(raw_vars(raw)).count("1") <= 2))
-        un = UNARY_SETS[cfg["l3_unary"]] if sel else ()
-        lv = _good(L[0]) if (cfg["l3_leaves"] == "all" or (cfg["l3_leaves"] == "small" and small)) else ()
-        rs = lv
+        small = _small(raw_of(a))
+        few = _NVARS[a.vars] <= 2
+        if cfg["l3_prims"] == "all":
+            un = UNARY_SETS[cfg["l3_unary"] if few else cfg["l3_unary_3var"]]
+        else:
+            un = UNARY_SETS[cfg["l3_unary"]] if (small and few) else ()
+        lv, rs = (), ()
+        if cfg["l3_leaves"] and small:          # (op) leaf on either side, result mentions at most 2 variables
+            lv = [b for b in _good(L[0]) if _NVARS[a.vars | b.vars] <= 2]
+            rs = lv
         if cfg["l3_divmod_partners"] and small:
-            rs = list(lv) + _G["divmod_partners"]
+            rs = list(rs) + [b for b in _G["divmod_partners"] if _NVARS[a.vars | b.vars] <= 2]
         return un, rs, lv
     raise AssertionError(depth)
 
@@ -664,9 +682,6 @@ def _shard_deep(task):
     cfg = _G["cfg"]
     index = _G["index"]
     st = Stats()
-    if os.environ.get("C26_DEBUG"):
-        import resource
-        _r0 = resource.getrusage(resource.RUSAGE_SELF)
     ck = Checker(st, cfg["sizes"], seed)
     un4 = UNARY_SETS[cfg["l4_unary"]]
     seen: set = set()
@@ -693,7 +708,7 @@ def _shard_deep(task):
 
     for a in primaries(3)[lo:hi]:
         un, rs, ls = level_cfg(3, a, cfg)
-        small = bool(un4) and _small(raw_of(a))
+        small = bool(un4) and _small(raw_of(a)) and _NVARS[a.vars] <= 2
         for k, x, y, op in transitions(a, un, rs, ls):
             s3 = visit(k, x, y, a, 3)
             if s3 is not None and small and op in _DIVMOD:
@@ -701,11 +716,6 @@ def _shard_deep(task):
                     visit(k4, x4, y4, s3, 4)
         a.vec = None
     ck.flush()
-    if os.environ.get("C26_DEBUG"):
-        _r1 = resource.getrusage(resource.RUSAGE_SELF)
-        st.bump("dbg_user_ms", int(1000 * (_r1.ru_utime - _r0.ru_utime)))
-        st.bump("dbg_sys_ms", int(1000 * (_r1.ru_stime - _r0.ru_stime)))
-        st.bump("dbg_minflt", _r1.ru_minflt - _r0.ru_minflt)
     return st, hs[3], nts[3], hs[4], nts[4]
 
 
@@ -789,6 +799,11 @@ def _compose_compare(st: Stats, api: str, subj_raws, dim_repl, sym_repl, res_exp
                 got = f"eval raised {type(ex).__name__}"
             st.evaluations += 1
             if got != exp:
+                # attribution: the same substitution written as one expression tree and built with the overloads --
+                # if that tree is already built wrongly the defect is in the builder (reported there), not in compose
+                if not sound(st, _subst(sr, dim_repl, sym_repl)):
+                    st.bump("compose_mismatch_explained_by_build_defect")
+                    return False
                 st.violate(f"C26|compose|{api}|value-differs",
                            f"{api}: composed expression {le} differs from the reference composition",
                            {**wit, "result": str(le), "result_index": j, "dims": list(dims), "symbols": list(syms),
@@ -796,6 +811,18 @@ def _compose_compare(st: Stats, api: str, subj_raws, dim_repl, sym_repl, res_exp
                 return False
     st.outcomes[f"compose:{api}:ok"] += 1
     return True
+
+
+def _subst(t, dim_repl, sym_repl):
+    """Raw tree of the subject with its dims / symbols textually replaced (symbol renaming of map composition ignored)."""
+    k = t[0]
+    if k == "d":
+        return dim_repl[t[1]] if t[1] < len(dim_repl) else t
+    if k == "s":
+        return sym_repl[t[1]] if sym_repl is not None and t[1] < len(sym_repl) else t
+    if k in ("c", "i"):
+        return t
+    return (k,) + tuple(_subst(c, dim_repl, sym_repl) for c in t[1:])
 
 
 def _needs(raw) -> tuple[bool, bool, bool]:
@@ -1027,10 +1054,10 @@ def _dbg(msg: str) -> None:
 
 def tier_cfg(quick: bool):
     if quick:
-        return {"sizes": SIMPLIFY_SIZES, "l3_unary": "dm9", "l3_prims": "small2", "l3_leaves": "none", "l3_divmod_partners": False,
-                "l4_unary": "none"}
-    return {"sizes": SIMPLIFY_SIZES, "l3_unary": "all", "l3_prims": "all", "l3_leaves": "small", "l3_divmod_partners": True,
-            "l4_unary": "dm8"}
+        return {"sizes": SIMPLIFY_SIZES, "l3_prims": "small2", "l3_unary": "dm9", "l3_unary_3var": "none", "l3_leaves": False,
+                "l3_divmod_partners": False, "l4_unary": "none"}
+    return {"sizes": SIMPLIFY_SIZES, "l3_prims": "all", "l3_unary": "all", "l3_unary_3var": "all", "l3_leaves": True,
+            "l3_divmod_partners": True, "l4_unary": "dm8"}
 
 
 def generate(ctx, cfg) -> dict:
@@ -1074,6 +1101,14 @@ def generate(ctx, cfg) -> dict:
     # other map spaces for the printer / parser: no symbol list at all, and more dims / symbols than used
     st = Stats()
     for s in _good(_G["levels"][0] + _G["levels"][1]):
+        # harness self-checks on the small states: vector reference == scalar reference; projected eval == eval on all points
+        raw = raw_of(s)
+        if vec_of(s) != [ref_eval(raw, (p[0], p[1]), (p[2],)) for p in PTS]:
+            raise AssertionError(f"c26 harness: vector and scalar reference disagree on {pretty(raw)}")
+        st.evaluations += NPTS
+        if lib_vec(st, s.expr) != [s.expr.eval((p[0], p[1]), (p[2],)) for p in PTS]:
+            st.violate("C26|eval|absent-variable|value-differs", f"eval of {s.expr} depends on a variable that does not occur in it",
+                       {"check": "build", "tree": tolist(raw), "pretty": pretty(raw), "built": str(s.expr)})
         for nd, ns in ((2, 0), (3, 2), (2, 2)):
             if ns == 0 and raw_vars(raw_of(s)) & 4:
                 continue
@@ -1121,7 +1156,7 @@ def run(ctx):
     if not quick:
         # level-2 subjects built from K itself (they use both dims and the symbol frequently)
         for a in K:
-            for b in K:
+            for b in K[::2]:
                 subj.append(("add", a, b))
                 subj.append(("sub", a, b))
             for k in ("fdiv", "cdiv", "mod"):
@@ -1155,16 +1190,20 @@ def run(ctx):
         "leaves": [pretty(t) for t in LEAVES], "int_operands": list(INTS), "divisors": list(DIVS),
         "box": f"[{LO},{HI}]^3 = {NPTS} points",
         "depth_full": 2,
-        "depth3": {"int_operand_forms": [f"{k}:{v}:{side}" for k, v, side in UNARY_SETS[cfg["l3_unary"]]],
-                   "on": {"all": "all depth-2 states", "small": "depth-2 states whose constants / int operands are all in {-1,2,3}",
-                          "small2": "depth-2 states whose constants / int operands are all in {-1,2,3} and that mention at most 2 of d0,d1,s0"}[cfg["l3_prims"]],
-                   "binary_with_a_leaf_on_either_side": {"none": "no", "small": "on depth-2 states whose constants are in {-1,2,3}",
-                                                         "all": "all"}[cfg["l3_leaves"]],
-                   "plus_minus_a_depth1_divmod_state_on_the_right": ("on depth-2 states whose constants are in {-1,2,3}: "
-                                                                     + ", ".join(str(s.expr) for s in _G["divmod_partners"]))
-                   if cfg["l3_divmod_partners"] else "no"},
+        "depth3": {
+            "int_operand_forms": [f"{k}:{v}:{side}" for k, v, side in UNARY_SETS[cfg["l3_unary"]]],
+            "on": ("all depth-2 states" if cfg["l3_unary_3var"] == cfg["l3_unary"] else
+                   "all depth-2 states that mention at most 2 of d0,d1,s0; on those that mention all 3 only "
+                   + ",".join(f"{k}:{v}" for k, v, _ in UNARY_SETS[cfg["l3_unary_3var"]])) if cfg["l3_prims"] == "all"
+            else "depth-2 states whose constants / int operands are all in {-1,2,3} and that mention at most 2 of d0,d1,s0",
+            "binary_with_a_leaf_on_either_side": "on depth-2 states whose constants are in {-1,2,3}, result mentions <= 2 variables"
+            if cfg["l3_leaves"] else "no",
+            "plus_minus_a_depth1_divmod_state_on_the_right": ("on depth-2 states whose constants are in {-1,2,3}, result mentions <= 2 "
+                                                              "variables; partners: " + ", ".join(str(s.expr) for s in _G["divmod_partners"]))
+            if cfg["l3_divmod_partners"] else "no"},
         "depth4": {"int_operand_forms": [f"{k}:{v}:{side}" for k, v, side in UNARY_SETS[cfg["l4_unary"]]],
-                   "on": "depth-3 states reached by " + ",".join(f"{k}:{v}" for k, v, _ in UNARY_DIVMOD) + " from depth-2 states with constants in {-1,2,3}"},
+                   "on": "depth-3 states reached by " + ",".join(f"{k}:{v}" for k, v, _ in UNARY_DIVMOD)
+                         + " from depth-2 states with constants in {-1,2,3} that mention <= 2 variables"},
         "simplify_sizes": [list(x) for x in cfg["sizes"]],
         "compose_subjects": len(subj), "replacement_set": [pretty(t) for t in K],
         "map_compose_pairs": len(msub) * len(others), "inverse_permutation_maps": len(inv),
